@@ -10,6 +10,10 @@ from .report import ROOT
 
 
 def main(argv=None):
+    import warnings
+    warnings.filterwarnings("ignore")
+    import numpy as _np
+    _np.seterr(all="ignore")
     ap = argparse.ArgumentParser()
     ap.add_argument("prop", nargs="?")
     ap.add_argument("--tier", default=os.environ.get("VERIF_TIER", "quick"), choices=["quick", "thorough"])
